@@ -55,3 +55,12 @@ package timeout
 //@   ensures [C07.listener_not_from_caller] ncalls(e.onTimeoutExceeded) == 0
 //@   havoc
 //@   modifies calls(innerFn), calls(exec.CopyForCancellable), calls(e.onFailure), calls(e.onSuccess), calls(child.CopyWithResult)
+
+// Build gives the Timeout its own copy of the configuration: a listener registered on the builder afterwards, or a
+// second Timeout built from the same builder, must not change which listener an already built Timeout calls.
+//@ func (*config).Build
+//@   builder
+//@   requires c != nil
+//@   let tc := asref(result, *timeout).config
+//@   ensures [C07.build.own_config+C16.timeout.build_own_listener] result != nil && typeis(result, *timeout) && tc != nil && tc != c && fresh(tc) && tc.timeLimit == c.timeLimit && tc.onTimeoutExceeded == c.onTimeoutExceeded
+//@   modifies nothing
